@@ -177,6 +177,26 @@ fn extreme_templates() -> Vec<String> {
         "if (true) { include \"missing_too.inc\"; }",
         "int between = 1;",
     ];
+    // odd expression forms (empty and non-empty tuples, brace and bracket lists, strings, blocks,
+    // concatenation …) in every position where the grammar takes an expression; whatever parses
+    // without diagnostics must be analysed without a crash
+    let odd = [
+        "()", "(1, 2)", "(a,)", "(())", "((), ())", "{}", "{1, 2}", "{{1}, {2}}", "[1, 2]", "\"str\"", "'s'", "x ++ y", "a[()]", "f(())", "-()", "!()", "~()",
+        "int(())", "float[32](())", "()[0]", "() + ()", "1 ** ()", "true", "$0", "pi", "U", "10ns", "2im", "a[0:1]", "a[{1, 2}]", "measure $0", "-true", "- - 1",
+    ];
+    let holes = [
+        "{};", "int x = {};", "const int x = {};", "int x; x = {};", "int x; x += {};", "if ({}) { }", "if ({}) x = 1; else x = 2;", "while ({}) { }", "for int i in {} { }",
+        "for int i in [{}:1] { }", "for int i in [0:{}] { }", "for int i in [0:{}:2] { }", "for int i in {{}} { }", "switch ({}) { case 1 { } }", "switch (1) { case {} { } }",
+        "switch (1) { case 1, {} { } default { } }", "float({});", "int[{}] x;", "bit[{}] b;", "qubit[{}] q;", "complex[float[{}]] z;", "array[int, {}] a;", "delay[{}] $0;", "qubit q; pow({}) @ x q;",
+        "qubit q; ctrl({}) @ x q, q;", "qubit q; negctrl({}) @ inv @ x q, q;", "gphase({});", "ctrl @ gphase({}) $0;", "U({}, 0, 0) $0;", "qubit q; U(0, {}, 0) q;", "def f(int a) { } f({});",
+        "def f(int a, int b) { } f(1, {});", "int[8] x; x[{}] = 1;", "a[{}];", "a[0, {}];", "a[{}:{}];", "def f() -> int { return {}; }", "let al = {};", "const int n = {}; int[n] y;", "-{};", "{} + 1;",
+        "1 * {};", "({});", "bit b = measure $0; b = {};", "input int x; output int y; y = {};", "gate g(t) q { U({}, t, 0) q; }", "if (true) { {}; }", "@note\nint x = {};",
+    ];
+    for h in holes {
+        for e in odd {
+            v.push(h.replace("{}", e));
+        }
+    }
     // nesting with an erroneous leaf: parentheses, unary minus, casts, index operators, blocks
     for depth in [1usize, 2, 4, 8, 12, 16] {
         v.push(format!("{}nope{};", "(".repeat(depth), ")".repeat(depth)));
